@@ -82,3 +82,10 @@ Proof.
   apply (proj1 (H (nth n rows []) (nth_In rows [] Hn))).
 Qed.
 End Csr.
+
+Example knn_csr_wf_example :
+  forall row, In row [[(1, 1%nat)]; [(0, 1%nat)]] ->
+    NoDup (map fst row) /\ forall c, In c (map fst row) -> c < length [[(1, 1%nat)]; [(0, 1%nat)]].
+Proof.
+  intros row [<-|[<-|[]]]; (split; [repeat constructor; intros [] | intros c [<-|[]]; cbn; lia]).
+Qed.
